@@ -50,6 +50,8 @@ class Ctx:
         self.skipped = []         # scenarios a driver could not set up
         import threading
         self._vlock = threading.Lock()
+        self.round = 0            # thorough tier: further rounds of the drivers with other seeds
+        self._cache = {}          # model-checking results of round 0 (they do not depend on the seed)
         self.assumptions = []
         self.exhaustive = False
         self.extra = {}
@@ -77,6 +79,9 @@ class Ctx:
     # -------------------------------------------------------------------- MC
     def mc(self, module, cfg, expect="ok", workers=8, timeout=600, count=True, extra=()):
         """expect: "ok" | "violates:<Name>" (non-vacuity run: the named invariant/property must fail)."""
+        key = ("mc", module, cfg, expect, tuple(extra))
+        if self.round > 0 and key in self._cache:
+            return self._cache[key]
         t = time.time()
         rc, out = self._tlc(module + ".tla", cfg, self.specdir, workers, timeout, extra)
         m = re.search(r"(\d+) states generated, (\d+) distinct states found", out)
@@ -100,10 +105,13 @@ class Ctx:
             self.states += dist
             self.transitions += gen
         self.log("MC %-40s %-28s %8d gen %8d distinct %5.1fs" % (cfg, got, gen, dist, time.time() - t))
+        self._cache[key] = (rec, out)
         return rec, out
 
     def lockmc(self, progs_path, k, expect="ok", timeout=900, label=None):
         """Runs Locks.tla on a file of lock programs; returns (got, chosen program indexes of the counterexample or None)."""
+        if self.round > 0 and (label or "").startswith("sample"):
+            return expect, None, ""
         wd = tempfile.mkdtemp(prefix="lk-", dir=self.scratch)
         for f in ("Locks.tla", "Locks_k%d.cfg" % k):
             shutil.copy(os.path.join(self.specdir, f), wd)
@@ -140,6 +148,9 @@ class Ctx:
     # ------------------------------------------------------------------- gen
     def gen(self, module, cfg, timeout=600, simulate=None, workers=1):
         """Runs a generator configuration; returns the list of histories (parsed JSON)."""
+        gkey = ("gen", module, cfg, json.dumps(simulate, sort_keys=True))
+        if self.round > 0 and gkey in self._cache and not simulate:
+            return self._cache[gkey]
         extra = []
         if simulate:
             extra = ["-simulate", "num=%d" % simulate["num"], "-depth", str(simulate.get("depth", 100)),
@@ -158,6 +169,7 @@ class Ctx:
             self.undecided.append("generator %s produced no behaviours (rc=%s)" % (cfg, rc))
             sys.stdout.write(out[-2000:])
         self.log("GEN %-40s %d behaviours" % (cfg, len(hs)))
+        self._cache[gkey] = hs
         return hs
 
     # -------------------------------------------------------------------- go
@@ -432,6 +444,9 @@ class Ctx:
             "known_findings_reproduced": [k["id"] for k in self.known_hits],
             "exhaustive": self.exhaustive,
         }
+        self.assumptions = list(dict.fromkeys(self.assumptions))
+        cov["rule"] = " || ".join(dict.fromkeys(self.rules))
+        cov["driver_rounds"] = self.round + 1
         cov.update(self.extra)
         if self.level == "other":
             cov["explanation"] = self.extra.get("explanation", "")
